@@ -809,7 +809,33 @@ type loopGuard struct {
 type loopGuardKey struct{}
 
 // onPoint is the node's hook-point handler.
+// voteHold parks one Handle*Proofs call at the hook point "mirror.vote.beforeAdd": after the
+// mirror has looked up the view and merged and verified the message against it, right before
+// it hands the result to the kernel. The call carries the hold in its context.
+type voteHold struct {
+	arrived chan struct{}
+	release chan struct{}
+	once    sync.Once
+}
+
+type voteHoldKey struct{}
+
+func newVoteHold() *voteHold {
+	return &voteHold{arrived: make(chan struct{}), release: make(chan struct{})}
+}
+
 func (n *node) onPoint(ctx context.Context, name string) {
+	if name == "mirror.vote.beforeAdd" {
+		if h, ok := ctx.Value(voteHoldKey{}).(*voteHold); ok && h != nil {
+			h.once.Do(func() {
+				close(h.arrived)
+				select {
+				case <-h.release:
+				case <-ctx.Done():
+				}
+			})
+		}
+	}
 	switch name {
 	case "mirror.ph.restart":
 		if lg, ok := ctx.Value(loopGuardKey{}).(*loopGuard); ok {
@@ -870,11 +896,18 @@ func (n *node) callerPanic(key, msg, stack string) {
 }
 
 func (n *node) deliverPrevotes(p tmconsensus.PrevoteSparseProof) (tmconsensus.HandleVoteProofsResult, bool) {
+	return n.deliverPrevotesHeld(p, nil)
+}
+
+func (n *node) deliverPrevotesHeld(p tmconsensus.PrevoteSparseProof, hold *voteHold) (tmconsensus.HandleVoteProofsResult, bool) {
 	if n.m == nil || n.dead.Load() {
 		return 0, false
 	}
 	ctx, cancel := n.callCtx()
 	defer cancel()
+	if hold != nil {
+		ctx = context.WithValue(ctx, voteHoldKey{}, hold)
+	}
 	var res tmconsensus.HandleVoteProofsResult
 	if pn, key, msg, stack := verifkit.Guard(func() {
 		if h, rec := n.mapped(); h != nil {
@@ -895,11 +928,18 @@ func (n *node) deliverPrevotes(p tmconsensus.PrevoteSparseProof) (tmconsensus.Ha
 }
 
 func (n *node) deliverPrecommits(p tmconsensus.PrecommitSparseProof) (tmconsensus.HandleVoteProofsResult, bool) {
+	return n.deliverPrecommitsHeld(p, nil)
+}
+
+func (n *node) deliverPrecommitsHeld(p tmconsensus.PrecommitSparseProof, hold *voteHold) (tmconsensus.HandleVoteProofsResult, bool) {
 	if n.m == nil || n.dead.Load() {
 		return 0, false
 	}
 	ctx, cancel := n.callCtx()
 	defer cancel()
+	if hold != nil {
+		ctx = context.WithValue(ctx, voteHoldKey{}, hold)
+	}
 	var res tmconsensus.HandleVoteProofsResult
 	if pn, key, msg, stack := verifkit.Guard(func() {
 		if h, rec := n.mapped(); h != nil {
